@@ -269,11 +269,11 @@ def c10():
            "src/indicators/ichimoku_cloud.rs: <IchimokuCloudInstance as IndicatorInstance>::next"]
     add("c10_mfi_next_p1", "MoneyFlowIndex{period 1, zone 0.2}: init Ok, one next() on the concrete candle returns (complement of "
         "c10_mfi_next_p0 at its smallest value only; streams are the X engine's part)", mfi, 20)
-    add("c10_mfi_next_p0", "MoneyFlowIndex{period 0}: validate() true, init Ok, first next(): value class of the known finding "
+    add("c10_mfi_next_p0", "MoneyFlowIndex{period 0}: rejected by init, or accepted by validate() and the first next() returns: value class of a repaired finding "
         "(push into an empty window)", mfi, 15, tier="t")
     add("c10_ichimoku_next_m1", "IchimokuCloud{l1 1, l2 2, l3 3, m 1}: init Ok, one next() returns (complement of c10_ichimoku_next_m0 "
         "at its smallest value only)", ich, 60)
-    add("c10_ichimoku_next_m0", "IchimokuCloud{m 0}: validate() true, init Ok, first next(): value class of the known finding "
+    add("c10_ichimoku_next_m0", "IchimokuCloud{m 0}: rejected by init, or accepted by validate() and the first next() returns: value class of a repaired finding "
         "(push into an empty window)", ich, 40, tier="t")
     return j
 
